@@ -575,11 +575,28 @@ type c08ent struct {
 	Named bool `json:"named"`
 }
 
-func c08modText(shape []c08ent) (text string, refs []string) {
+func c08modText(shape []c08ent) (text string, refs []string) { return c08modTextFill(shape, 0) }
+
+// c08filler is a group of top-level definitions that carry numbers of their OWN kinds (attribute
+// group and metadata IDs, chosen different from every @N in play) and no unnamed global.
+func c08filler(i int) string {
+	return fmt.Sprintf("attributes #%d = { nounwind }\ndeclare void @zzfa%d() #%d\n!%d = !{i32 %d}\n!zzmd%d = !{!%d}\n", 7+i, i, 7+i, 5+i, i, i, 5+i)
+}
+
+// c08modTextFill: fill 0 = entities only; 1 = a filler group before the first entity; 2 = a filler
+// group after every entity (LLVM numbers @N by counting unnamed globals only, whatever else is
+// defined in between).
+func c08modTextFill(shape []c08ent, fill int) (text string, refs []string) {
 	var b strings.Builder
 	b.WriteString("@base = global i32 0\ndefine i32 ()* @resolver() {\n  ret i32 ()* null\n}\n")
+	if fill == 1 {
+		b.WriteString(c08filler(0))
+	}
 	n := 0
 	for i, e := range shape {
+		if fill == 2 && i > 0 {
+			b.WriteString(c08filler(i))
+		}
 		ref := fmt.Sprintf("@n%d", i)
 		if !e.Named {
 			ref = fmt.Sprintf("@%d", n)
@@ -678,25 +695,47 @@ func c08module(c *fw.Check, shape []c08ent, mu *sync.Mutex, fails map[string][]c
 		fails[kind] = append(fails[kind], c08case{Shape: c08modSig(shape), Form: "module", Text: text, Got: fw.Trunc(got, 1500), What: what, Mod: c08modShapeString(shape)})
 		mu.Unlock()
 	}
-	m, errs, pan := parseTry(text)
-	switch {
-	case pan != "":
-		add("module/parser-panics", pan, "")
-	case errs != "":
-		add("module/parser-rejects", errs, "")
-	default:
-		var printed string
-		if p := fw.Try(func() { printed = m.String() }); p != "" {
-			add("module/print-panics", "String() panics on a module the parser produced: "+p, "")
-		} else {
-			if err := m.AssignGlobalIDs(); err != nil {
-				add("module/assign-not-idempotent", err.Error(), "")
+	for fill := 0; fill <= 2; fill++ {
+		ftext, fref, tag, form := text, ref, "module", "module"
+		if fill > 0 {
+			if len(shape) < 2 && fill == 2 {
+				continue
 			}
-			got, e2, ok2, _ := fw.AsDis(printed)
-			if !ok2 {
-				add("module/llvm-rejects-printed", fw.Trunc(e2, 300), printed)
-			} else if o1, o2 := llcanon.Diff(llcanon.Canon(ref), llcanon.Canon(got)); len(o1)+len(o2) > 0 {
-				add("module/binding-differs", "LLVM reads the printed module differently", printed)
+			ftext, _ = c08modTextFill(shape, fill)
+			var fe string
+			var fok bool
+			fref, fe, fok, _ = fw.AsDis(ftext)
+			if !fok {
+				fw.Fatalf("C08 module numbering model (with other numbered definitions in between) rejected by LLVM:\n%s\n%s", ftext, fe)
+			}
+			form = "module-interleaved"
+			c.Valid(1)
+		}
+		addF := func(kind, what, got string) {
+			mu.Lock()
+			fails[kind] = append(fails[kind], c08case{Shape: c08modSig(shape), Form: form, Text: ftext, Got: fw.Trunc(got, 1500), What: what, Mod: c08modShapeString(shape)})
+			mu.Unlock()
+		}
+		m, errs, pan := parseTry(ftext)
+		switch {
+		case pan != "":
+			addF(tag+"/parser-panics", pan, "")
+		case errs != "":
+			addF(tag+"/parser-rejects", errs, "")
+		default:
+			var printed string
+			if p := fw.Try(func() { printed = m.String() }); p != "" {
+				addF(tag+"/print-panics", "String() panics on a module the parser produced: "+p, "")
+			} else {
+				if err := m.AssignGlobalIDs(); err != nil {
+					addF(tag+"/assign-not-idempotent", err.Error(), "")
+				}
+				got, e2, ok2, _ := fw.AsDis(printed)
+				if !ok2 {
+					addF(tag+"/llvm-rejects-printed", fw.Trunc(e2, 300), printed)
+				} else if o1, o2 := llcanon.Diff(llcanon.Canon(fref), llcanon.Canon(got)); len(o1)+len(o2) > 0 {
+					addF(tag+"/binding-differs", "LLVM reads the printed module differently", printed)
+				}
 			}
 		}
 	}
@@ -736,7 +775,7 @@ func runC08(c *fw.Check) {
 		shapes = append(shapes, c08shapes(maxP, 3, 3, 1, instKinds, termKinds)...)
 		deep = " plus ALL 3-block shapes with <=1 instruction per block,"
 	}
-	c.Rule = fmt.Sprintf("ALL function shapes with <=%d params (named/unnamed), <=%d blocks (named/unnamed), <=%d instructions per block"+deep+" over %d instruction kinds and %d terminator kinds (void and non-void, named and unnamed calls, invokes, callbrs, stores, fences), each emitted with explicit numbers from an independent 20-line model of LLVM's rule (validated by llvm-as on every shape), with implicit result numbers, with implicit block labels, and built through the API; ALL module shapes of length <=%d over {named,unnamed} x {global, alias, ifunc, declaration, definition}. Oracle: parser accepts every spelling LLVM accepts, String() does not panic, llvm-as accepts the printed numbering and reads the same functions (llvm-dis canonical form, so every %%N/@N is bound to the right value), numbering again changes nothing. distinct = shapes x forms.", maxP, maxB, maxI, len(instKinds), len(termKinds), modLen)
+	c.Rule = fmt.Sprintf("ALL function shapes with <=%d params (named/unnamed), <=%d blocks (named/unnamed), <=%d instructions per block"+deep+" over %d instruction kinds and %d terminator kinds (void and non-void, named and unnamed calls, invokes, callbrs, stores, fences), each emitted with explicit numbers from an independent 20-line model of LLVM's rule (validated by llvm-as on every shape), with implicit result numbers, with implicit block labels, and built through the API; ALL module shapes of length <=%d over {named,unnamed} x {global, alias, ifunc, declaration, definition}, each also with attribute-group and metadata definitions (numbers of their own) written before and between the entities. Oracle: parser accepts every spelling LLVM accepts, String() does not panic, llvm-as accepts the printed numbering and reads the same functions (llvm-dis canonical form, so every %%N/@N is bound to the right value), numbering again changes nothing. distinct = shapes x forms.", maxP, maxB, maxI, len(instKinds), len(termKinds), modLen)
 	c.Extra["function_shapes"] = len(shapes)
 	const batch = 150
 	nb := (len(shapes) + batch - 1) / batch
